@@ -273,12 +273,12 @@ def check_step(a, declined, b, e, eff, post):
                 fails.append(("row-in-range-not-the-frame-sent", str(n), False))
     if not fails:
         return out
-    if d9 and all(f[2] for f in fails):
+    sym = [f for f in fails if d9 and f[2]]
+    if sym:
         out.append((D9_SIG, "bounded EndSeqNo below the last sent number (or EndSeqNo < BeginSeqNo): everything after "
-                            "EndSeqNo is gap-filled and deleted from the journal: " + "; ".join(f"{f[0]} {f[1]}" for f in fails[:3])))
-    else:
-        for k, d, _ in fails:
-            out.append((f"C06-{k}", f"{k}: {d} (class {cls})"))
+                            "EndSeqNo is gap-filled and deleted from the journal: " + "; ".join(f"{f[0]} {f[1]}" for f in sym[:3])))
+    for k, d, _ in [f for f in fails if f not in sym]:
+        out.append((f"C06-{k}", f"{k}: {d} (class {cls})"))
     return out
 
 
